@@ -33,7 +33,7 @@ def is_sublist(a, b):
     return all(any(x == y for y in it) for x in a)
 
 
-KINDS = ["add", "addpad", "hs", "a", "w", "x", "k", "d:1", "d:-1", "d:2", "c", "t"]
+KINDS = ["add", "addpad", "hs", "a", "w", "x", "k", "d:1", "d:-1", "d:2", "c", "t", "X", "K"]
 
 
 def render(kinds):
@@ -69,13 +69,13 @@ def direct_check(ctx, ops, steps):
             why = "a recorded command appears twice in the history file"
         elif not is_sublist(cl, rec):
             why = "history file is not in recording order / holds a command never recorded"
-        if why is None and ops[i] in ("a", "x") :
+        if why is None and ops[i] in ("a", "x", "X") :
             # everything the session holds is now in the file
             items = st.split(" ")[1][2:]
             have = [unesc(it.rsplit(":", 2)[0]) for it in items.split(",")] if items else []
             if ops[i] == "a" and any(h not in cl for h in have):
                 why = "after save a session command is missing from the file"
-        if why is None and i > 0 and ops[i] == "a" and ops[i - 1] in ("a", "w", "x") and f != last_file:
+        if why is None and i > 0 and ops[i] == "a" and ops[i - 1] in ("a", "w", "x", "X") and f != last_file:
             why = "saving again without new commands changed the file"
         if why:
             return why, i
